@@ -28,6 +28,8 @@ claimed={
         "ClickHouse priority table and the PQL meaning table (harness/h/valmap.go) are trusted transcriptions; the real parser's grouping is C07's subject."),
  "C06":("Programs built from let prefixes x use sites x suffixes x parameter maps (and shapes with arbitrary operators around and inside the binding) are compiled by the real compiler; a reference with lexical scoping evaluates the real parser's tree to a value-algebra term and z3 decides equality with the term of the emitted SQL for all rows; non-substituted contexts (quoted, qualified, function, table, alias) are checked structurally; removing unused bindings / lets after the query must leave the SQL byte-identical.",
         "Programs are enumerated by selectors (reported as such); the solver's quantifier is over rows and operator interpretations."),
+ "C16":("The real run() of cmd/pql (harness injected into package main by overlay, bufio.Scanner interpreted from source) is executed on scripts assembled from statement templates, separators and line layouts with selector-chosen read chunking and a read failure at an arbitrary offset; a model that calls the real pql.Compile per statement with the prelude of accepted lets gives the expected standard output, error count and exit status; the real multiReadCloser and an over-long line are exercised too.",
+        "Scripts and environment choices are enumerated through selectors (reported as such); main/cobra/os plumbing is outside (not encodable). Two documented don't-cares."),
 }
 checks=[]
 for p in props:
